@@ -1211,6 +1211,7 @@ fn bytes_stream(driver: &Driver, seed: u64, n: u64) -> Stream {
             let mut marker = 700_000u64;
             let nops = 3 + rng.usize(9);
             let mut saves = 0;
+            let mut late = 0;
             for step in 0..nops + 1 {
                 let last = step == nops;
                 let k = if last { 99 } else { rng.below(100) };
@@ -1221,6 +1222,29 @@ fn bytes_stream(driver: &Driver, seed: u64, n: u64) -> Stream {
                     ex.values.insert(marker, v);
                     (marker, val)
                 };
+                // the catalog or the page tree root replaced by something that does not load as such — the next
+                // save fails *after* writing its revision — or repaired again
+                if !last && rng.chance(1, 8) {
+                    let id = if rng.chance(2, 3) { 1 } else { 2 };
+                    let (m, val) = if rng.chance(1, 2) {
+                        fresh(&mut rng, &mut ex)
+                    } else {
+                        marker += 1;
+                        let v = if id == 1 {
+                            PVal::Dict(vec![("Type".into(), PVal::Name("Catalog".into())), ("Pages".into(), PVal::Ref(2, 0)), ("Marker".into(), PVal::Int(marker as i64))])
+                        } else {
+                            PVal::Dict(vec![("Type".into(), PVal::Name("Pages".into())), ("Kids".into(), PVal::Arr(vec![])), ("Count".into(), PVal::Int(0)), ("Marker".into(), PVal::Int(marker as i64))])
+                        };
+                        let val = pval_to_val(&v, true);
+                        ex.values.insert(marker, v);
+                        (marker, val)
+                    };
+                    let (_, a, _) = ex.apply(&HOp::Update(id, m, false));
+                    touched.insert(id);
+                    ops.push(format!("u={}={}", id, show_val(&val)));
+                    ans.push(a);
+                    continue;
+                }
                 if k < 20 {
                     let (m, val) = fresh(&mut rng, &mut ex);
                     let (_, a, _) = ex.apply(&HOp::Create(m));
@@ -1263,8 +1287,40 @@ fn bytes_stream(driver: &Driver, seed: u64, n: u64) -> Stream {
                 } else if k >= 88 && (saves < 3 || last) {
                     saves += 1;
                     let before = ex.last_bytes.len();
+                    // the last save is mostly a retry after repair: the revisions failed saves left behind show up
+                    if last && rng.chance(3, 4) {
+                        let broken = {
+                            let root = ex.trailer.root.get_ref().get_inner();
+                            let res = ex.storage.resolver();
+                            res.get::<pdf::object::Catalog>(Ref::new(root)).is_err()
+                        };
+                        if broken {
+                            for id in [1u64, 2] {
+                                marker += 1;
+                                let v = if id == 1 {
+                                    PVal::Dict(vec![("Type".into(), PVal::Name("Catalog".into())), ("Pages".into(), PVal::Ref(2, 0)), ("Marker".into(), PVal::Int(marker as i64))])
+                                } else {
+                                    PVal::Dict(vec![("Type".into(), PVal::Name("Pages".into())), ("Kids".into(), PVal::Arr(vec![])), ("Count".into(), PVal::Int(0)), ("Marker".into(), PVal::Int(marker as i64))])
+                                };
+                                let val = pval_to_val(&v, true);
+                                ex.values.insert(marker, v);
+                                let (_, a, _) = ex.apply(&HOp::Update(id, marker, false));
+                                touched.insert(id);
+                                ops.push(format!("u={}={}", id, show_val(&val)));
+                                ans.push(a);
+                            }
+                        }
+                    }
+                    // does the catalog load as a catalog (its page tree root included) in the current state? The
+                    // typed reader's answer is an input of the model (`OpB.save typed`), asked independently of `save`
+                    let typed = {
+                        let root = ex.trailer.root.get_ref().get_inner();
+                        let res = ex.storage.resolver();
+                        res.get::<pdf::object::Catalog>(Ref::new(root)).is_ok()
+                    };
                     let (_, a, _) = ex.apply(&HOp::Save);
-                    ops.push("s".into());
+                    ops.push(format!("s={}", if typed { 1 } else { 0 }));
+                    if !typed { late += 1; }
                     if a.starts_with("ok") {
                         ans.push(format!("ok/{}", crate::driver::hex(&ex.last_bytes[before..])));
                     } else {
@@ -1272,6 +1328,7 @@ fn bytes_stream(driver: &Driver, seed: u64, n: u64) -> Stream {
                     }
                 }
             }
+            let _ = late;
             Ok((ops, ans))
         }));
         let info = if base.has_info { show_val(&pval_to_val(&info_val(), false)) } else { "n".to_string() };
@@ -1279,7 +1336,13 @@ fn bytes_stream(driver: &Driver, seed: u64, n: u64) -> Stream {
         match r {
             Ok(Ok((ops, ans))) => {
                 st.count(&format!("saves={}", ans.iter().filter(|a| a.starts_with("ok/")).count()));
-                st.count(&format!("failed-saves={}", ops.iter().zip(ans.iter()).filter(|(o, a)| *o == "s" && !a.starts_with("ok/")).count()));
+                st.count(&format!("failed-saves={}", ops.iter().zip(ans.iter()).filter(|(o, a)| o.starts_with("s=") && !a.starts_with("ok/")).count()));
+                st.count(&format!("saves-failing-after-the-write={}", ops.iter().filter(|o| *o == "s=0").count()));
+                let first_late = ops.iter().position(|o| o == "s=0");
+                let retried = first_late.map(|p| ops.iter().zip(ans.iter()).skip(p + 1).any(|(o, a)| o.starts_with("s=") && a.starts_with("ok/"))).unwrap_or(false);
+                if first_late.is_some() {
+                    st.count(if retried { "late-failure=then-a-successful-save" } else { "late-failure=last-word" });
+                }
                 reqs.push(format!("c09.bytes {} {} {} {}", base.request_fields(), info, ids, if ops.is_empty() { "-".to_string() } else { ops.join(";") }));
                 imps.push(ans.join(";"));
             }
